@@ -603,6 +603,10 @@ mut("hournoise: shift floored straight from the converted delay (revert of fix F
 mut("hournoise: full hours of a request by ceil of the conversion (revert of fix F28)", ["R-HOURNOISE"],
     [(JOB, "                math.ceil(round(copy(self.request_duration.value).to(u.hour).magnitude, 9)) * u.dimensionless,",
       "                math.ceil(copy(self.request_duration.value).to(u.hour).magnitude) * u.dimensionless,")], ["duration_in_full_hours"])
+mut("hournoise: remainder of an event duration compared with 0 (revert of fix F30)", ["R-HOURNOISE"],
+    [(CNO, "    nb_of_full_hours_in_event_duration = math.floor(round(event_duration_in_nb_of_hours, 9))",
+      "    nb_of_full_hours_in_event_duration = math.floor(event_duration_in_nb_of_hours)"),
+     (CNO, "    if nonfull_duration_rest > 1e-9:", "    if nonfull_duration_rest > 0:")], ["compute_nb_avg_hourly_occurrences"])
 mut("noop: hourly == raises on another length (revert of fix F23)", ["R-NOOP"],
     [(EO, """            if len(self.value) != len(other.value):
                 return False
